@@ -41,7 +41,5 @@ def replay(o, seed):
     if "crc2bytes" in name:
         return try_candidates("crc2bytes", ({"message": m.hex()} for m in byte_strings(seed)),
                               key=lambda i, r: "crc2bytes")
-    if "RTCMReader.parse" in name:
-        from props import reader_replay
-        return reader_replay.replay_parse(o, seed)
-    return None
+    from props.replays import generic_replay
+    return generic_replay(o, seed)
